@@ -165,12 +165,110 @@ def main(tier, seed, scale=1.0):
         if nontrivial:
             chk.sample({"case": cid, "input": text, "processes": procs, "repeats": repeat,
                         "output_sha": digest(out)}, limit=4)
+    ref = {}
+    for cid, td, text in cases:
+        o = runs[0].get(cid)
+        if o is not None and o.get("st") in ("ok", "err"):
+            ref[cid] = (o["st"], o.get("out") if o["st"] == "ok" else o.get("msg"))
+    environment(chk, seed, exe, [(cid, text) for cid, text in feed if cid in ref], ref)
     offsets_and_comments(chk, seed)
     chk.extra["processes"] = procs
     chk.extra["repeats_per_process"] = repeat
     if tier == "thorough":
         unpretty_pairs(chk, seed, cases)
     return chk.finish()
+
+
+# what a build system puts into the compiler's environment (and a few things a shell may export): two assignments each
+HOSTILE_ENV = {
+    "OPT_LEVEL": ("0", "3"), "PROFILE": ("debug", "release"), "DEBUG": ("true", "false"), "NUM_JOBS": ("1", "64"),
+    "CARGO_PKG_RUST_VERSION": ("1.80", "1.56.1"), "CARGO_PKG_VERSION": ("9.9.9", "0.0.1-alpha"), "CARGO_PKG_NAME": ("x", "educe"),
+    "CARGO_CRATE_NAME": ("x", "educe"), "CARGO_MANIFEST_DIR": ("/nonexistent", "/"), "CARGO_PKG_VERSION_MAJOR": ("9", "0"),
+    "TARGET": ("x86_64-unknown-linux-gnu", "wasm32-unknown-unknown"), "HOST": ("x86_64-unknown-linux-gnu", "aarch64-apple-darwin"),
+    "RUSTC": ("rustc", "/nonexistent/rustc"), "RUSTFLAGS": ("-Copt-level=0", "-Cdebug-assertions=on"),
+    "CARGO_ENCODED_RUSTFLAGS": ("-Copt-level=0", "--cfg\x1fx"), "CARGO_CFG_TARGET_OS": ("none", "linux"),
+    "CARGO_CFG_DEBUG_ASSERTIONS": ("", "1"), "CARGO_CFG_TARGET_POINTER_WIDTH": ("16", "64"), "CARGO_FEATURE_DEFAULT": ("1", ""),
+    "CARGO_FEATURE_FULL": ("1", ""), "CARGO_PRIMARY_PACKAGE": ("1", ""), "RUSTC_BOOTSTRAP": ("1", "0"), "RUST_LOG": ("trace", "off"),
+    "LANG": ("tr_TR.UTF-8", "C"), "LC_ALL": ("tr_TR.UTF-8", "C"), "TZ": ("Pacific/Kiritimati", "UTC"), "SOURCE_DATE_EPOCH": ("0", "4102444800"),
+    "HOME": ("/nonexistent", "/"), "USER": ("nobody", "root"), "CI": ("true", ""), "DOCS_RS": ("1", ""), "OUT_DIR": ("/nonexistent", "/tmp"),
+    "TERM": ("dumb", "xterm-256color"), "NO_COLOR": ("1", ""), "RUST_MIN_STACK": ("16777216", "8388608"), "EDUCE": ("1", "0"),
+}
+ENV_ALLOW = {"RUST_BACKTRACE", "RUST_LIB_BACKTRACE", "VERIF_ENVLOG"}   # read by std's panic machinery / by the shim
+
+
+def environment(chk, seed, exe, feed, ref):
+    """"nothing but the input tokens": not the compiler's environment either.  (1) an LD_PRELOAD shim logs every getenv of
+    the expanding process: the names read while expanding (beyond those an empty run reads) are suspects; (2) the corpus is
+    expanded again under two hostile environments (everything a build script sees, set to odd values) and once per
+    suspect with that variable alone set to a range of values: every output has to be the one of the plain run."""
+    tmp = os.path.join(WORK, "envmon")
+    os.makedirs(tmp, exist_ok=True)
+    so = os.path.join(tmp, "envmon.so")
+    src = os.path.join(os.path.dirname(os.path.dirname(os.path.dirname(os.path.abspath(__file__)))), "tools", "envmon", "envmon.c")
+    rc, out, err, _ = run(["clang", "-shared", "-fPIC", "-O1", "-o", so, src, "-ldl"], timeout=120)
+    suspects = set()
+    if rc != 0:
+        chk.inconc("env-monitor-not-built")
+        log("C16: cannot build the getenv shim: %s" % err[-400:])
+    else:
+        seen = []
+        for which, cases in (("idle", feed[:1]), ("corpus", feed)):
+            lg = os.path.join(tmp, "getenv.%s.log" % which)
+            if os.path.exists(lg):
+                os.unlink(lg)
+            r = B._run_chunk(exe, list(cases), 1, False, 900, env=base_env({"LD_PRELOAD": so, "VERIF_ENVLOG": lg}))
+            names = set(open(lg).read().split()) if os.path.exists(lg) else None
+            seen.append(names)
+            if which == "corpus":
+                for cid, text in feed:
+                    o = r.get(cid)
+                    if o and o.get("st") in ("ok", "err") and (o["st"], o.get("out") if o["st"] == "ok" else o.get("msg")) != ref.get(cid):
+                        chk.violation("nondeterministic|environment|LD_PRELOAD", "the expansion changes when a library is preloaded?\n%s" % text,
+                                      {"input.rs": text})
+                        break
+        if seen[0] is None or seen[1] is None:
+            chk.inconc("env-monitor-silent")
+        else:
+            suspects = seen[1] - seen[0] - ENV_ALLOW
+            chk.extra["getenv_names_idle"] = sorted(seen[0])[:40]
+            chk.extra["getenv_names_while_expanding"] = sorted(seen[1] - seen[0])[:40]
+    plans = [("hostile-A", {k: v[0] for k, v in HOSTILE_ENV.items()}), ("hostile-B", {k: v[1] for k, v in HOSTILE_ENV.items()})]
+    for name in sorted(suspects):
+        for val in ("", "0", "1", "3", "s", "1.60", "1.76", "1.80.0", "99.99.99", "true", "false", "debug", "release", "x y"):
+            plans.append(("suspect %s=%r" % (name, val), {name: val}))
+    chk.extra["environments_tried"] = len(plans)
+
+    def one(plan):
+        return plan[0], plan[1], B._run_chunk(exe, list(feed), 1, False, 900, env=base_env(plan[1]))
+    with cf.ThreadPoolExecutor(max_workers=min(NCPU, len(plans))) as ex:
+        results = list(ex.map(one, plans))
+    reported = set()
+    for pname, penv, r in results:
+        for cid, text in feed:
+            o = r.get(cid)
+            if o is None or o.get("st") in ("harness", "crash", "timeout", "panic"):
+                chk.inconc("env-runner-" + (o or {}).get("st", "missing"))
+                continue
+            chk.evaluations += 1
+            got = (o["st"], o.get("out") if o["st"] == "ok" else o.get("msg"))
+            if got != ref.get(cid):
+                culprit = pname
+                if pname.startswith("hostile") and cid not in reported:
+                    # narrow down to one variable (for the report only)
+                    for k, v in penv.items():
+                        o1 = B._run_chunk(exe, [(cid, text)], 1, False, 300, env=base_env({k: v})).get(cid) or {}
+                        if (o1.get("st"), o1.get("out") if o1.get("st") == "ok" else o1.get("msg")) != ref.get(cid):
+                            culprit = "%s=%s" % (k, v)
+                            break
+                if cid in reported:
+                    continue
+                reported.add(cid)
+                chk.violation("nondeterministic|environment|%s" % culprit.split("=")[0].replace("suspect ", ""),
+                              "the expansion depends on the environment of the expanding process (%s)\ninput:\n%s\nplain: %s\nthere: %s"
+                              % (culprit, text, (ref[cid][1] or "")[:1200], (got[1] or "")[:1200]),
+                              {"input.rs": text, "plain.txt": ref[cid][1] or "", "other.txt": got[1] or ""})
+    if suspects:
+        chk.count("environment-variables-read:" + ",".join(sorted(suspects))[:80])
 
 
 OFFSET_INPUTS = [
